@@ -60,6 +60,19 @@ def S(s):
 N = "N"
 
 
+def TZD(dt, tz):
+    """an aware datetime the implementation returned for output zone `tz`: the instant, provided
+    the value really is expressed in that zone (else a token nothing matches)"""
+    import datetime as _dt
+    if type(dt) is not _dt.datetime:
+        return "X%s:%s" % (type(dt).__name__, "".join(ch for ch in repr(dt)[:40] if not ch.isspace()))
+    if dt.tzinfo is None:
+        return "Xnaive:%s" % dt.isoformat()
+    if dt.utcoffset() != dt.astimezone(tz).utcoffset():
+        return "Xwrongzone:%s" % dt.isoformat()
+    return T(instant_us(dt))
+
+
 def wall_us(dt):
     """wall-clock reading of a datetime (its own fields) in µs since ordinal 0"""
     return (dt.toordinal() * US_DAY + dt.hour * 3600_000_000 + dt.minute * 60_000_000
